@@ -481,6 +481,45 @@ def rule_slots_only_by_leader(ctx: Ctx) -> None:
     need(n >= 5, f"C12-13: expected >= 5 slot-assignment sites, found {n}")
 
 
+def rule_quorum_roles_and_fresh_tallies(ctx: Ctx) -> None:
+    """C12-16: (a) every comparison of a *promise* tally is against the phase-1 quorum and every comparison of an *accept* tally against the
+    phase-2 quorum (they differ only in Flexible Paxos, where Q1 + Q2 > N is all that is guaranteed: a take-over on Q2 promises need not
+    intersect an earlier Q2 of accepts).  (b) assigning a slot starts a fresh tally for it — `{self.name}` / 1 stored by assignment, never
+    merged into what the slot number collected for an earlier, truncated command."""
+    prog = ctx.prog
+    n = 0
+    for rel, cname, q1, q2 in ((PAX, "PaxosNode", "self.quorum_size", "self.quorum_size"), (MP, "MultiPaxosNode", "self.quorum_size", "self.quorum_size"),
+                               (FP, "FlexiblePaxosNode", "self._phase1_quorum", "self._phase2_quorum")):
+        c = prog.cls(rel, cname)
+        quorums = {"self.quorum_size", "self._phase1_quorum", "self._phase2_quorum"}
+        for m in c.methods.values():
+            for cmp_ in [x for x in walk_scope(m.node, include_root=False) if isinstance(x, ast.Compare) and len(x.ops) == 1]:
+                sides = [cmp_.left, cmp_.comparators[0]]
+                qs = [s_ for s_ in sides if path_of(s_) in quorums]
+                if len(qs) != 1:
+                    continue
+                other = unparse(sides[1] if qs[0] is sides[0] else sides[0])
+                role = "promise" if "_phase1_responses" in other else "accept" if any(t in other for t in ("_phase2_responses", "_slot_acks", "_slot_ackers")) else None
+                if role is None:
+                    continue
+                n += 1
+                want = q1 if role == "promise" else q2
+                ctx.ob("C12-16", "G8", m, cmp_, path_of(qs[0]) == want, f"{cname}.{m.name}: the {role} tally `{other}` is compared with the {'phase-1' if role == 'promise' else 'phase-2'} quorum `{want}`")
+        if cname == "PaxosNode":
+            continue
+        asg = c.methods["_assign_slot"]
+        for attr, fresh in (("self._slot_ackers", lambda v: (isinstance(v, ast.Set) and [path_of(e) for e in v.elts] == ["self.name"])
+                                                          or (isinstance(v, ast.Call) and path_of(v.func) == "set" and len(v.args) == 1 and isinstance(v.args[0], (ast.List, ast.Tuple, ast.Set)) and [path_of(e) for e in v.args[0].elts] == ["self.name"])),
+                            ("self._slot_acks", lambda v: isinstance(v, ast.Constant) and v.value == 1)):
+            st = [x for x in walk_stmts(asg.node.body) if isinstance(x, ast.Assign) and isinstance(x.targets[0], ast.Subscript) and path_of(x.targets[0].value) == attr]
+            merged = [k for k in calls_in(asg.node) if isinstance(k.func, ast.Attribute) and k.func.attr in ("setdefault", "get", "add", "update") and unparse(k.func.value).startswith(attr)]
+            n += 1
+            ctx.ob("C12-16", "G2", asg, st[0] if st else None, len(st) == 1 and fresh(st[0].value) and not merged,
+                   f"{cname}._assign_slot starts the slot's tally afresh (`{attr}[slot]` is assigned the leader's own ack only): acks an earlier command collected under the same slot number never count for the new one")
+    need(n >= 10, f"C12-16: expected >= 10 quorum comparisons / tally initialisations, found {n}")
+    ctx.floor("C12-16", 10)
+
+
 def rule_schema(ctx: Ctx) -> None:
     prog = ctx.prog
     for rel, cname in ((PAX, "PaxosNode"), (MP, "MultiPaxosNode"), (FP, "FlexiblePaxosNode")):
@@ -577,10 +616,14 @@ def run(ctx: Ctx) -> None:
     ctx.guarded(rule_slots_only_by_leader)
     ctx.guarded(rule_accept_files_under_its_slot)
     ctx.guarded(rule_abandoned_ballot)
+    ctx.guarded(rule_quorum_roles_and_fresh_tallies)
     ctx.guarded(rule_schema)
 
 
 MUTANTS = [
+    ("flexible-self-quorum-shortcut-on-q2", FP, "        if len(self._phase1_responses[ballot.number]) >= self._phase1_quorum:\n            events.extend(self._become_leader())", "        if len(self._phase1_responses[ballot.number]) >= self._phase2_quorum:\n            events.extend(self._become_leader())", "C12-16"),
+    ("flexible-slot-decided-on-q1", FP, "        if self._slot_acks[slot] >= self._phase2_quorum and slot > self._log.commit_index:", "        if self._slot_acks[slot] >= self._phase1_quorum and slot > self._log.commit_index:", "C12-16"),
+    ("multipaxos-slot-tally-merged-into-old", MP, "        self._slot_ackers[slot] = {self.name}  # self\n        self._slot_acks[slot] = 1\n", "        ackers = self._slot_ackers.setdefault(slot, set())\n        ackers.add(self.name)\n        self._slot_acks[slot] = len(ackers)\n", "C12-16"),
     ("multipaxos-falsy-state-machine-discarded", MP, "state_machine if state_machine is not None else KVStateMachine()", "state_machine or KVStateMachine()", "C12-6"),
     ("multipaxos-overtaken-candidacy-takes-over", MP, '        if self._current_ballot != Ballot(ballot_number, self.name):\n            # This candidacy has been overtaken (a higher ballot was adopted\n            # since): its late promises must not make this node lead.\n            return []\n', "", "C12-4"),
     ("flexible-overtaken-candidacy-takes-over", FP, '        if self._current_ballot != Ballot(ballot_number, self.name):\n            # This candidacy has been overtaken (a higher ballot was adopted\n            # since): its late promises must not make this node lead.\n            return []\n', "", "C12-4"),
